@@ -16,6 +16,12 @@
 //	"Continue for the first k invocations, then act (s = Stop, w = wrapped Stop, f<n> = error n)",
 //	ret = nil | e<n> (the script's own error, unchanged) | stop (Stop surfaced) | other,
 //	ids = comma separated record ids in invocation order.  For N: ret = found|none, ids = the id.
+//
+// The kind letter may carry a tag that only names the history the trace comes from (the driver
+// judges every trace the same way, because in the model a search is a function of tree, query and
+// script): "o" = outer search whose callback started other searches on the SAME tree at chosen
+// positions (re-entrancy), "i" = such an inner search (other query box, from the opposite side of
+// the population), "c" = search run concurrently with others from several goroutines.
 package main
 
 import (
@@ -23,8 +29,10 @@ import (
 	"errors"
 	"fmt"
 	"math"
+	"runtime"
 	"strconv"
 	"strings"
+	"sync"
 
 	"github.com/peterstace/simplefeatures/rtree"
 	"verifharness/lib"
@@ -415,6 +423,148 @@ func main() {
 				}
 				for j, k := range ks {
 					run("P", q, k, pickAct(j+qi+1))
+				}
+			}
+		}
+		// ---- histories: searches started from inside a callback of another search on the same tree
+		if n >= 2 {
+			bb := bound(items)
+			corners := []ibox{
+				{bb.minx - 1, bb.miny - 1, bb.minx - 1, bb.miny - 1},
+				{bb.maxx + 1, bb.maxy + 1, bb.maxx + 1, bb.maxy + 1},
+				{bb.minx - 2, bb.maxy + 2, bb.minx - 2, bb.maxy + 2},
+				{bb.maxx + 2, bb.miny - 2, bb.maxx + 2, bb.miny - 2},
+			}
+			mirror := func(q ibox) ibox { // the query reflected through the centre of the population
+				return ibox{bb.minx + bb.maxx - q.maxx, bb.miny + bb.maxy - q.maxy, bb.minx + bb.maxx - q.minx, bb.miny + bb.maxy - q.miny}
+			}
+			runInner := func(kind string, q ibox, k int, act string) {
+				var visits []int
+				switch kind {
+				case "N":
+					id, found := tree.Nearest(q.rt())
+					if found {
+						emit("Ni", q, 0, "s", "found", []int{id})
+					} else {
+						emit("Ni", q, 0, "s", "none", nil)
+					}
+				case "P":
+					cb, own := script(k, act, &visits)
+					emit("Pi", q, k, act, retClass(tree.PrioritySearch(q.rt(), cb), own), visits)
+				case "R":
+					cb, own := script(k, act, &visits)
+					emit("Ri", q, k, act, retClass(tree.RangeSearch(q.rt(), cb), own), visits)
+				}
+				acts["inner"+kind]++
+			}
+			// outer search with script Continue^k.act; at every position in `at` the callback first
+			// runs an inner search with query q2, then answers
+			runOuter := func(kind string, q, q2 ibox, k int, act string, at map[int]bool) {
+				var visits []int
+				cb0, own := script(k, act, &visits)
+				pos := 0
+				cb := func(id int) error {
+					j := pos
+					pos++
+					if at[j] {
+						switch j % 4 {
+						case 0:
+							runInner("P", q2, n+1, "s") // a complete inner PrioritySearch
+						case 1:
+							runInner("N", q2, 0, "s")
+						case 2:
+							runInner("P", q2, r.Intn(n+1), pickAct(j))
+						default:
+							runInner("R", mirror(q), r.Intn(n+1), pickAct(j))
+						}
+					}
+					return cb0(id)
+				}
+				var err error
+				if kind == "R" {
+					err = tree.RangeSearch(q.rt(), cb)
+				} else {
+					err = tree.PrioritySearch(q.rt(), cb)
+				}
+				acts["outer"+kind]++
+				emit(kind+"o", q, k, act, retClass(err, own), visits)
+			}
+			positions := func(all bool) map[int]bool {
+				at := map[int]bool{}
+				if all {
+					for j := 0; j < n; j++ {
+						at[j] = true
+					}
+					return at
+				}
+				for _, j := range []int{0, 1, 2, 3, n / 2, n - 2, r.Intn(n), r.Intn(n)} {
+					if j >= 0 {
+						at[j] = true
+					}
+				}
+				return at
+			}
+			q, q2 := corners[0], corners[1]
+			if r.Bool() {
+				q, q2 = corners[2], corners[3]
+			}
+			enclosing := ibox{bb.minx - 1, bb.miny - 1, bb.maxx + 1, bb.maxy + 1}
+			runOuter("P", q, q2, n+1, "s", positions(n <= 24))
+			runOuter("P", q, q2, n+1, "s", map[int]bool{0: true})
+			runOuter("P", q2, q, r.Intn(n+1), pickAct(r.Intn(3)), positions(false))
+			runOuter("R", enclosing, q2, n+1, "s", positions(n <= 12))
+			runOuter("R", enclosing, q, r.Intn(n+1), pickAct(r.Intn(3)), positions(false))
+			// ---- a few goroutine-concurrent searches on the shared tree
+			if i%4 == 0 && n >= 4 {
+				const G = 4
+				type res struct {
+					kind, act, ret string
+					q          ibox
+					k          int
+					v          []int
+				}
+				results := make([][]res, G)
+				var wg sync.WaitGroup
+				start := make(chan struct{})
+				ks := make([]int, G)
+				for g := range ks {
+					ks[g] = r.Intn(n + 1)
+				}
+				for g := 0; g < G; g++ {
+					wg.Add(1)
+					go func(g int) {
+						defer wg.Done()
+						<-start
+						one := func(kind string, q ibox, k int, act string) {
+							var visits []int
+							cb0, own := script(k, act, &visits)
+							cb := func(id int) error { runtime.Gosched(); return cb0(id) }
+							var err error
+							if kind == "R" {
+								err = tree.RangeSearch(q.rt(), cb)
+							} else {
+								err = tree.PrioritySearch(q.rt(), cb)
+							}
+							results[g] = append(results[g], res{kind, act, retClass(err, own), q, k, visits})
+						}
+						one("P", corners[g], n+1, "s")
+						one("R", enclosing, n+1, "s")
+						one("P", corners[(g+1)%G], ks[g], []string{"s", "w", "f7"}[g%3])
+						id, found := tree.Nearest(corners[(g+2)%G].rt())
+						if found {
+							results[g] = append(results[g], res{"N", "s", "found", corners[(g+2)%G], 0, []int{id}})
+						} else {
+							results[g] = append(results[g], res{"N", "s", "none", corners[(g+2)%G], 0, nil})
+						}
+					}(g)
+				}
+				close(start)
+				wg.Wait()
+				for g := 0; g < G; g++ {
+					for _, x := range results[g] {
+						emit(x.kind+"c", x.q, x.k, x.act, x.ret, x.v)
+						acts["concurrent"+x.kind]++
+					}
 				}
 			}
 		}
